@@ -3,6 +3,8 @@ of canmatrix's own writer, with the lexical freedom of the format as a parameter
 renderings, order of statements within a section, optional parts left out."""
 from lib.c15 import net as N
 
+NET_OPTS = {"extmux": True}
+
 
 class Lex(object):
     def __init__(self, rng, level):
@@ -77,7 +79,9 @@ def render(net, lex, opts=None):
         out.append("BO_" + L.sp() + str(compound(f)) + L.sp() + f["name"] + L.osp() + ":" + L.sp() + str(f["size"]) + L.sp() + tx)
         for s in f["signals"]:
             tag = ""
-            if s["mux"] == "M":
+            if s["mux"] == "M" and "muxval" in s:
+                tag = "m%dM" % s["muxval"] + L.sp()
+            elif s["mux"] == "M":
                 tag = "M" + L.sp()
             elif s["mux"] is not None:
                 tag = "m%d" % s["mux"] + L.sp()
@@ -165,5 +169,12 @@ def render(net, lex, opts=None):
         if f.get("group"):
             g = f["group"]
             out.append("SIG_GROUP_" + L.sp() + str(compound(f)) + L.sp() + g[0] + L.sp() + str(g[1]) + L.sp() + ":" + "".join(L.sp() + n for n in g[2]) + L.osp() + ";")
+    mul = []
+    for f in net["frames"]:
+        for s in f["signals"]:
+            if s.get("muxer_for") and s.get("grp"):
+                mul.append("SG_MUL_VAL_" + L.sp() + str(compound(f)) + L.sp() + s["name"] + L.sp() + s["muxer_for"] + L.sp() +
+                           ("," + L.sp()).join("%d-%d" % (a, b) for a, b in s["grp"]) + L.osp() + ";")
+    out.extend(L.order(mul))
     out.append("")
     return L.eol().join(out)
